@@ -84,6 +84,7 @@ func runPair(id, scenario string, dc dcase) {
 	if !want(id) {
 		return
 	}
+	nextCase()
 	r := &result{}
 	T, err1 := spawnObserver(id + "/target")
 	R, err2 := spawnObserver(id + "/requester")
@@ -485,6 +486,7 @@ func runDeleteAlias(id, scenario string, n, del, watch int, mon bool, via string
 	if !want(id) {
 		return
 	}
+	nextCase()
 	r := &result{}
 	T, err1 := spawnObserver(id + "/owner")
 	R, err2 := spawnObserver(id + "/watcher")
@@ -577,6 +579,7 @@ func runLinkChild(id, scenario, mode, via string, register bool) {
 	if !want(id) {
 		return
 	}
+	nextCase()
 	r := &result{}
 	P, err := spawnObserver(id + "/parent")
 	if err != nil {
@@ -736,6 +739,7 @@ func runLinkParent(id, scenario, via string, unlinkFirst bool) {
 	if !want(id) {
 		return
 	}
+	nextCase()
 	r := &result{}
 	P, err := spawnObserver(id + "/parent")
 	if err != nil {
@@ -884,6 +888,7 @@ func runFan(id, scenario string) {
 	if !want(id) {
 		return
 	}
+	nextCase()
 	rng := hk.Rng("c04", id)
 	r := &result{}
 	T, err := spawnObserver(id + "/owner")
